@@ -912,6 +912,33 @@ module Dp = struct
     done with End_of_file -> ())
 end
 
+(* ---------------- the bump allocator of a command buffer (C10): TempStore.v ---------------- *)
+module Ts = struct
+  open TempStore
+  let parse_chunks tok =
+    if tok = "-" then [] else
+    Stdlib.List.map (fun c -> match String.split_on_char ':' c with
+      | [b; cap; fr] -> { c_base = n_of_int (int_of_string b); c_cap = n_of_int (int_of_string cap); c_free = n_of_int (int_of_string fr) }
+      | _ -> failwith "chunk") (String.split_on_char ';' tok)
+  let view st =
+    let cs = Stdlib.List.map (fun (b, (c, f)) -> Printf.sprintf "%d:%d:%d" (int_of_n b) (int_of_n c) (int_of_n f)) (ts_chunk_view st) in
+    Printf.sprintf "V %d %d %s" (int_of_n st.t_target) (int_of_n st.t_total) (if cs = [] then "-" else String.concat ";" cs)
+  let run () =
+    let st = ref ts_init in
+    (try while true do
+      let l = input_line stdin in
+      (match split_ws l with
+       | ["set"; tg; tot; cs] -> st := { t_chunks = parse_chunks cs; t_target = n_of_int (int_of_string tg); t_total = n_of_int (int_of_string tot) }; print_endline "ok"
+       | ["alloc"; sz; al; b] ->
+           let (r, st') = ts_step (TAlloc (n_of_int (int_of_string sz), n_of_int (int_of_string al), n_of_int (int_of_string b))) !st in
+           st := st';
+           (match r with RAlloc (i, off, _) -> Printf.printf "A %d %d\n" (int_of_nat i) (int_of_n off) | RClear -> print_endline "C")
+       | ["clear"] -> let (_, st') = ts_step TClear !st in st := st'; print_endline "C"
+       | ["view"] -> print_endline (view !st)
+       | _ -> print_endline "?")
+    done with End_of_file -> ())
+end
+
 let run_lines f =
   try
     while true do
@@ -931,6 +958,7 @@ let () =
   | _ :: "systems" :: _ -> Sy.run ()
   | _ :: "layout" :: _ -> Ly.run ()
   | _ :: "disptrace" :: _ -> Dp.run ()
+  | _ :: "tempstore" :: _ -> Ts.run ()
   | _ :: "events" :: _ -> Ed.run false
   | _ :: "eventspec" :: _ -> Ed.run true
   | _ -> prerr_endline "usage: runner <domain>"; exit 2
